@@ -694,3 +694,52 @@ Proof.
   destruct (split_on COMMA a) as [|h t] eqn:E; [now apply split_on_nonempty in E|].
   cbn [app tl]. rewrite map_app, filter_app. cbn [map filter]. rewrite (strip_allws p W). cbn. now rewrite app_nil_r.
 Qed.
+
+(* ------------------------------------------------------------------ the caching client *)
+Section CacheFacts.
+  Variables Req Key Res : Type.
+  Variable key : Req -> Key.
+  Variable keq : Key -> Key -> bool.
+  Variable run : Req -> Res.
+  Hypothesis sound : forall a b, keq (key a) (key b) = true -> run a = run b.
+
+  Definition cache_ok (c : list (Key * Res)) : Prop :=
+    Forall (fun kx => exists r0, key r0 = fst kx /\ run r0 = snd kx) c.
+
+  Lemma cache_lookup_ok c r x : cache_ok c -> cache_lookup Key Res keq (key r) c = Some x -> x = run r.
+  Proof.
+    induction c as [|[k y] t IH]; cbn; intros OK H; [discriminate|]. inversion OK as [|kx t' Hx OKt]; subst. destruct Hx as (r0 & K & R).
+    cbn in K, R. destruct (keq (key r) k) eqn:E.
+    - inversion H; subst. symmetry. now apply sound.
+    - now apply IH.
+  Qed.
+
+  Lemma serve_transparent rs : forall c, cache_ok c -> serve Req Key Res key keq run c rs = map run rs.
+  Proof.
+    induction rs as [|r t IH]; intros c OK; [reflexivity|]. cbn [serve map].
+    destruct (cache_lookup Key Res keq (key r) c) as [x|] eqn:E.
+    - rewrite (cache_lookup_ok c r x OK E). f_equal. now apply IH.
+    - f_equal. apply IH. constructor; [now exists r | exact OK].
+  Qed.
+End CacheFacts.
+
+Lemma cache_key_separates (Res : Type) (fs : string -> string) (view : dict -> Res) (history : list string) :
+  serve string string Res key_path US.eqb (fun p => view (read_text (fs p))) [] history
+  = map (fun p => view (read_text (fs p))) history.
+Proof.
+  apply serve_transparent; [|constructor]. unfold key_path. intros a b E. apply US.eqb_eq in E. now subst.
+Qed.
+
+Lemma lineset_key_counterexample :
+  exists t1 t2 : string,
+    lineset_eqb (key_lineset t1) (key_lineset t2) = true
+    /\ option_map e_sval (dict_get (us "Gradient 1"%string) (read_text t1)) = Some (us "60"%string)
+    /\ option_map e_sval (dict_get (us "Gradient 1"%string) (read_text t2)) = Some (us "40"%string)
+    /\ serve string (list string) (option string) key_lineset lineset_eqb
+         (fun t => option_map e_sval (dict_get (us "Gradient 1"%string) (read_text t))) [] [t1; t2]
+       = [Some (us "60"%string); Some (us "60"%string)].
+Proof.
+  exists (us "Gradient 1, 40"%string ++ [LF] ++ us "Gradient 1, 60"%string ++ [LF]),
+         (us "Gradient 1, 60"%string ++ [LF] ++ us "Gradient 1, 40"%string ++ [LF]).
+  repeat split; vm_compute; reflexivity.
+Qed.
